@@ -472,13 +472,16 @@ def check_constructor(fx, func, name, ctor_eval):
     return n, bad
 
 
-def check_nary(fx, func, name, ctor_eval, max_len=3):
+def check_nary(fx, func, name, ctor_eval, max_len=3, all_orders=False):
     sem, dop = NARY[name]
     bad = []
     n = 0
+    orders = [{'x': 0, 'y': 1, 'z': 2}, {'x': 2, 'y': 1, 'z': 0}, {'x': 1, 'y': 0, 'z': 2}]
+    if all_orders:
+        orders = [dict(zip('xyz', p_)) for p_ in itertools.permutations(range(3))]
     for ln in range(0, max_len + 1):
-        for combo in itertools.product(SHAPES3[:6] if ln > 2 else SHAPES3, repeat=ln):
-            for order in ({'x': 0, 'y': 1, 'z': 2}, {'x': 2, 'y': 1, 'z': 0}, {'x': 1, 'y': 0, 'z': 2}):
+        for combo in itertools.product(SHAPES3[:6] if (ln > 2 and not all_orders) else SHAPES3, repeat=ln):
+            for order in orders:
                 n += 1
                 it = Interp(fx, func, dop, ctor_eval)
                 it.order = order
